@@ -1184,15 +1184,15 @@ theorem flat_unwrapNodes (c : Circuit) (order : List Nat) (hwf : c.WF) :
 /-! ### group_one_qubit_gates -/
 
 def gStep1 (s : GroupSt) (n : Nat) : GroupSt :=
-  if s.c.hasOneQubitLabel n then
-    match (s.c.node n).bind fun op => groupGates op.kind with
-    | some gs => { s with c := s.c.removeOp n, gates := s.gates ++ gs }
-    | none => { s with c := s.c.removeOp n, bad := true }
+  if s.c.groupable n then
+    { c := s.c.removeOp n, gates := s.gates ++ (match s.c.node n with
+        | some op => groupGates op.kind
+        | none => []) }
   else s
 
 def nextIsOne (c : Circuit) (rest : List Nat) : Bool :=
   match rest with
-  | m :: _ => c.hasOneQubitLabel m
+  | m :: _ => c.groupable m
   | [] => false
 
 def insPos (c : Circuit) (r : Reg) (rest : List Nat) : Nat :=
@@ -1202,14 +1202,13 @@ def insPos (c : Circuit) (r : Reg) (rest : List Nat) : Nat :=
 
 def gStep2 (r : Reg) (rest : List Nat) (s1 : GroupSt) : GroupSt :=
   if !nextIsOne s1.c rest && !s1.gates.isEmpty then
-    { s1 with c := s1.c.insertAt ⟨.wrapper s1.gates, [r], [], false⟩ [⟨r, insPos s1.c r rest⟩], gates := [] }
+    { c := s1.c.insertAt ⟨.wrapper s1.gates, [r], [], false⟩ [⟨r, insPos s1.c r rest⟩], gates := [] }
   else s1
 
 theorem groupWalk_cons (r : Reg) (n : Nat) (rest : List Nat) (s : GroupSt) :
     groupWalk r (n :: rest) s = groupWalk r rest (gStep2 r rest (gStep1 s n)) := rfl
 
 theorem groupWalk_nil (r : Reg) (s : GroupSt) : groupWalk r [] s = s := rfl
-
 
 def pend (gates : List G1) : List Item := (dropI (unwrapList gates)).map Item.g
 
@@ -1218,31 +1217,9 @@ theorem pend_append (a b : List G1) : pend (a ++ b) = pend b ++ pend a := by
 
 theorem pend_nil : pend [] = [] := rfl
 
-/-- one-qubit-labelled operations act on one register; one-qubit gates have no classical register -/
+/-- one-qubit gates (wrappers and base gates) act on one register and have no classical register -/
 def Circuit.Arity1 (c : Circuit) : Prop :=
-  ∀ n op, c.node n = some op → op.kind.oneQubitLabel = true →
-    (∃ r, op.q = [r]) ∧ (op.kind.isGate1 = true → op.cr = [])
-
-theorem gStep2_bad (r : Reg) (rest : List Nat) (s : GroupSt) : (gStep2 r rest s).bad = s.bad := by
-  unfold gStep2
-  split <;> rfl
-
-theorem gStep1_bad (s : GroupSt) (n : Nat) (h : (gStep1 s n).bad = false) : s.bad = false := by
-  unfold gStep1 at h
-  split at h
-  · split at h
-    · exact h
-    · cases h
-  · exact h
-
-theorem groupWalk_bad (r : Reg) (rest : List Nat) (s : GroupSt) (h : (groupWalk r rest s).bad = false) : s.bad = false := by
-  induction rest generalizing s with
-  | nil => exact h
-  | cons n rest ih =>
-    rw [groupWalk_cons] at h
-    have := ih _ h
-    rw [gStep2_bad] at this
-    exact gStep1_bad s n this
+  ∀ n op, c.node n = some op → op.kind.isGate1 = true → (∃ r, op.q = [r]) ∧ op.cr = []
 
 structure GInv (c0 : Circuit) (r : Reg) (rest : List Nat) (s : GroupSt) : Prop where
   wf : s.c.WF
@@ -1252,7 +1229,7 @@ structure GInv (c0 : Circuit) (r : Reg) (rest : List Nat) (s : GroupSt) : Prop w
   hnc : s.c.nc = c0.nc
   split : ∃ S, s.c.wire r = rest.reverse ++ S ∧ c0.F (c0.wire r) = s.c.F rest.reverse ++ pend s.gates ++ s.c.F S
   others : ∀ r', r' ∈ c0.qregs → r' ≠ r → s.c.F (s.c.wire r') = c0.F (c0.wire r')
-  pendOk : s.gates ≠ [] → ∃ m rest', rest = m :: rest' ∧ s.c.hasOneQubitLabel m = true
+  pendOk : s.gates ≠ [] → ∃ m rest', rest = m :: rest' ∧ s.c.groupable m = true
 
 /-- the facts after the first half of an iteration (the node has been collected, nothing inserted yet) -/
 structure GInv1 (c0 : Circuit) (r : Reg) (rest : List Nat) (s1 : GroupSt) : Prop where
@@ -1271,60 +1248,54 @@ theorem Arity1_removeOp (c : Circuit) (n : Nat) (h : c.Arity1) : (c.removeOp n).
   · rw [if_pos hmn] at hm; cases hm
   · rw [if_neg hmn] at hm; exact h m op hm hl
 
-theorem flatOp_eq_pend (op : Op) (gs : List G1) (h : groupGates op.kind = some gs) : flatOp op = pend gs := by
-  cases hk : op.kind <;> simp [hk, groupGates] at h
-  · subst h; simp [flatOp, hk, pend]
-  · subst h; simp [flatOp, hk, pend, unwrapList]
+theorem flatOp_eq_pend (op : Op) (h : op.kind.isGate1 = true) : flatOp op = pend (groupGates op.kind) := by
+  cases hk : op.kind <;> simp [hk, Kind.isGate1] at h
+  · simp [flatOp, hk, pend, groupGates]
+  · simp [flatOp, hk, pend, groupGates, unwrapList]
 
 theorem gStep1_inv (c0 : Circuit) (r : Reg) (n : Nat) (rest : List Nat) (s : GroupSt) (hr : r ∈ c0.qregs)
-    (h : GInv c0 r (n :: rest) s) (hb : (gStep1 s n).bad = false) : GInv1 c0 r rest (gStep1 s n) := by
+    (h : GInv c0 r (n :: rest) s) : GInv1 c0 r rest (gStep1 s n) := by
   obtain ⟨hwf, har, hne, hnp, hnc, ⟨S, hwire, hF⟩, hothers, hpend⟩ := h
   have hrty : r.ty ≠ .c := qregs_ty c0 r hr
   have hwire' : s.c.wire r = rest.reverse ++ n :: S := by rw [hwire]; simp
   have hnd := hwf.nodup r
   rw [hwire'] at hnd
   obtain ⟨hn1, hn2⟩ := not_mem_of_nodup_middle hnd
-  unfold gStep1 at hb ⊢
+  unfold gStep1
   split
   · rename_i hlab
-    rw [if_pos hlab] at hb
-    -- the node carries the label one-qubit
-    unfold Circuit.hasOneQubitLabel at hlab
+    unfold Circuit.groupable at hlab
     cases hnode : s.c.node n with
     | none => simp [hnode] at hlab
     | some op =>
-      simp only [hnode] at hlab
-      cases hg : groupGates op.kind with
-      | none => simp [hnode, hg] at hb
-      | some gs =>
-        simp only [Option.bind_some, hg]
-        obtain ⟨⟨r0, hq0⟩, _⟩ := har n op hnode hlab
-        have hr0 : r0 = r := by
-          have := (hwf.qwire n op hnode r hrty).mp (by rw [hwire']; simp)
-          rw [hq0, List.mem_singleton] at this
-          exact this.symm
-        have hnodes : ∀ l : List Nat, n ∉ l → (s.c.removeOp n).F l = s.c.F l := by
-          intro l hl
-          apply F_congr
-          intro m hm
-          rw [removeOp_node, if_neg (fun (h : m = n) => hl (h ▸ hm))]
-        refine ⟨WF_removeOp _ n hwf, Arity1_removeOp _ n har, hne, hnp, hnc, ⟨S, ?_, ?_⟩, ?_⟩
-        · show (s.c.wire r).filter (fun m => m ≠ n) = _
-          rw [hwire', List.filter_append, List.filter_cons_of_neg (by simp), filter_ne_of_not_mem _ n hn1,
-            filter_ne_of_not_mem _ n hn2]
-        · show _ = (s.c.removeOp n).F rest.reverse ++ pend (s.gates ++ gs) ++ (s.c.removeOp n).F S
-          rw [hnodes _ hn1, hnodes _ hn2, hF, pend_append, List.reverse_cons, F_append, F_single_some _ n op hnode,
-            flatOp_eq_pend op gs hg]
-          simp [List.append_assoc]
-        · intro r' hr' hne'
-          have hnot : n ∉ s.c.wire r' := by
-            intro hin
-            have := (hwf.qwire n op hnode r' (qregs_ty c0 r' hr')).mp hin
-            rw [hq0, List.mem_singleton, hr0] at this
-            exact hne' this
-          have : (s.c.removeOp n).wire r' = s.c.wire r' := filter_ne_of_not_mem _ n hnot
-          rw [this, hnodes _ hnot]
-          exact hothers r' hr' hne'
+      simp only [hnode] at hlab ⊢
+      obtain ⟨⟨r0, hq0⟩, _⟩ := har n op hnode hlab
+      have hr0 : r0 = r := by
+        have := (hwf.qwire n op hnode r hrty).mp (by rw [hwire']; simp)
+        rw [hq0, List.mem_singleton] at this
+        exact this.symm
+      have hnodes : ∀ l : List Nat, n ∉ l → (s.c.removeOp n).F l = s.c.F l := by
+        intro l hl
+        apply F_congr
+        intro m hm
+        rw [removeOp_node, if_neg (fun (h : m = n) => hl (h ▸ hm))]
+      refine ⟨WF_removeOp _ n hwf, Arity1_removeOp _ n har, hne, hnp, hnc, ⟨S, ?_, ?_⟩, ?_⟩
+      · show (s.c.wire r).filter (fun m => m ≠ n) = _
+        rw [hwire', List.filter_append, List.filter_cons_of_neg (by simp), filter_ne_of_not_mem _ n hn1,
+          filter_ne_of_not_mem _ n hn2]
+      · show _ = (s.c.removeOp n).F rest.reverse ++ pend (s.gates ++ groupGates op.kind) ++ (s.c.removeOp n).F S
+        rw [hnodes _ hn1, hnodes _ hn2, hF, pend_append, List.reverse_cons, F_append, F_single_some _ n op hnode,
+          flatOp_eq_pend op hlab]
+        simp [List.append_assoc]
+      · intro r' hr' hne'
+        have hnot : n ∉ s.c.wire r' := by
+          intro hin
+          have := (hwf.qwire n op hnode r' (qregs_ty c0 r' hr')).mp hin
+          rw [hq0, List.mem_singleton, hr0] at this
+          exact hne' this
+        have : (s.c.removeOp n).wire r' = s.c.wire r' := filter_ne_of_not_mem _ n hnot
+        rw [this, hnodes _ hnot]
+        exact hothers r' hr' hne'
   · rename_i hlab
     have hg : s.gates = [] := by
       cases hgs : s.gates with
@@ -1337,19 +1308,14 @@ theorem gStep1_inv (c0 : Circuit) (r : Reg) (n : Nat) (rest : List Nat) (s : Gro
     rw [hF, hg, List.reverse_cons, F_append, F_cons s.c n S]
     simp [pend_nil, List.append_assoc]
 
-
 theorem Arity1_insertAt (c : Circuit) (op : Op) (es : List Edge) (h : c.Arity1)
-    (hop : op.kind.oneQubitLabel = true → (∃ r, op.q = [r]) ∧ (op.kind.isGate1 = true → op.cr = [])) :
+    (hop : op.kind.isGate1 = true → (∃ r, op.q = [r]) ∧ op.cr = []) :
     (c.insertAt op es).Arity1 := by
   intro m op' hm hl
   rw [insertAt_node] at hm
   by_cases hmk : m = c.nid + 1
   · rw [if_pos hmk] at hm; cases hm; exact hop hl
   · rw [if_neg hmk] at hm; exact h m op' hm hl
-
-theorem hasOneQubitLabel_congr {c c' : Circuit} {m : Nat} (h : c'.node m = c.node m) :
-    c'.hasOneQubitLabel m = c.hasOneQubitLabel m := by
-  simp [Circuit.hasOneQubitLabel, h]
 
 theorem gStep2_inv (c0 : Circuit) (r : Reg) (rest : List Nat) (s1 : GroupSt) (hr : r ∈ c0.qregs)
     (h : GInv1 c0 r rest s1) : GInv c0 r rest (gStep2 r rest s1) := by
@@ -1398,7 +1364,7 @@ theorem gStep2_inv (c0 : Circuit) (r : Reg) (rest : List Nat) (s1 : GroupSt) (hr
       · intro r' hr'
         simp only [List.mem_singleton] at hr'
         subst hr'; exact ⟨hrv, hrq.2⟩
-    · exact Arity1_insertAt s1.c _ _ har (fun _ => ⟨⟨r, rfl⟩, fun _ => rfl⟩)
+    · exact Arity1_insertAt s1.c _ _ har (fun _ => ⟨⟨r, rfl⟩, rfl⟩)
     · rw [insertAt_ne]; exact hne
     · rw [insertAt_np]; exact hnp
     · rw [insertAt_nc]; exact hnc
@@ -1419,42 +1385,31 @@ theorem gStep2_inv (c0 : Circuit) (r : Reg) (rest : List Nat) (s1 : GroupSt) (hr
     | cons m rest' =>
       refine ⟨m, rest', rfl, ?_⟩
       simp only [nextIsOne, Bool.and_eq_true, Bool.not_eq_true', List.isEmpty_eq_false_iff, not_and] at hflush
-      cases hl : s1.c.hasOneQubitLabel m with
+      cases hl : s1.c.groupable m with
       | true => rfl
       | false => exact absurd (hflush hl) (by simpa using hg)
 
 /-- the walk over one quantum register keeps the invariant -/
 theorem groupWalk_inv (c0 : Circuit) (r : Reg) (hr : r ∈ c0.qregs) (rest : List Nat) (s : GroupSt)
-    (h : GInv c0 r rest s) (hb : (groupWalk r rest s).bad = false) : GInv c0 r [] (groupWalk r rest s) := by
+    (h : GInv c0 r rest s) : GInv c0 r [] (groupWalk r rest s) := by
   induction rest generalizing s with
   | nil => exact h
   | cons n rest ih =>
-    rw [groupWalk_cons] at hb ⊢
-    have hb1 : (gStep1 s n).bad = false := by
-      have := groupWalk_bad r rest _ hb
-      rw [gStep2_bad] at this
-      exact this
-    exact ih _ (gStep2_inv c0 r rest _ hr (gStep1_inv c0 r n rest s hr h hb1)) hb
+    rw [groupWalk_cons]
+    exact ih _ (gStep2_inv c0 r rest _ hr (gStep1_inv c0 r n rest s hr h))
 
-
-/-- on a classical wire the walk either meets a `MeasurementZ` (→ `AssertionError`) or changes nothing -/
+/-- on a classical wire nothing is groupable (a one-qubit gate has no classical register): the walk changes nothing -/
 theorem groupWalk_classical (r : Reg) (hty : r.ty = .c) (rest : List Nat) (s : GroupSt) (hwf : s.c.WF) (har : s.c.Arity1)
-    (hg : s.gates = []) (hrest : ∀ m, m ∈ rest → m ∈ s.c.wire r) (hb : (groupWalk r rest s).bad = false) :
-    groupWalk r rest s = s := by
+    (hg : s.gates = []) (hrest : ∀ m, m ∈ rest → m ∈ s.c.wire r) : groupWalk r rest s = s := by
   induction rest generalizing s with
   | nil => rfl
   | cons n rest ih =>
-    rw [groupWalk_cons] at hb ⊢
-    have hb1 : (gStep1 s n).bad = false := by
-      have := groupWalk_bad r rest _ hb
-      rw [gStep2_bad] at this
-      exact this
+    rw [groupWalk_cons]
     have h1 : gStep1 s n = s := by
-      unfold gStep1 at hb1 ⊢
+      unfold gStep1
       split
       · rename_i hlab
-        rw [if_pos hlab] at hb1
-        unfold Circuit.hasOneQubitLabel at hlab
+        unfold Circuit.groupable at hlab
         cases hnode : s.c.node n with
         | none => simp [hnode] at hlab
         | some op =>
@@ -1466,41 +1421,29 @@ theorem groupWalk_classical (r : Reg) (hty : r.ty = .c) (rest : List Nat) (s : G
             subst hty
             exact this
           have hcr := hwf.cwire n op hnode r.idx hin
-          cases hk : op.kind with
-          | wrapper gs =>
-            have := (har n op hnode hlab).2 (by rw [hk]; rfl)
-            rw [this] at hcr; cases hcr
-          | base g =>
-            have := (har n op hnode hlab).2 (by rw [hk]; rfl)
-            rw [this] at hcr; cases hcr
-          | measZ => simp [hnode, hk, groupGates] at hb1
-          | cnot => simp [hk, Kind.oneQubitLabel] at hlab
-          | cz => simp [hk, Kind.oneQubitLabel] at hlab
-          | ccnot => simp [hk, Kind.oneQubitLabel] at hlab
-          | ccz => simp [hk, Kind.oneQubitLabel] at hlab
-          | mcr => simp [hk, Kind.oneQubitLabel] at hlab
+          rw [(har n op hnode hlab).2] at hcr
+          cases hcr
       · rfl
     have h2 : gStep2 r rest s = s := by
       unfold gStep2
       rw [hg]
       simp
-    rw [h1, h2] at hb ⊢
-    exact ih s hwf har hg (fun m hm => hrest m (List.mem_cons_of_mem _ hm)) hb
+    rw [h1, h2]
+    exact ih s hwf har hg (fun m hm => hrest m (List.mem_cons_of_mem _ hm))
 
-/-- the walk over one register (any register) keeps well-formedness and `flat`, unless it raises -/
-theorem groupWalk_reg (r : Reg) (s : GroupSt) (hwf : s.c.WF) (har : s.c.Arity1)
-    (hb : (groupWalk r (s.c.wire r).reverse { s with gates := [] }).bad = false) :
+/-- the walk over one register (any register) keeps well-formedness and `flat` -/
+theorem groupWalk_reg (r : Reg) (s : GroupSt) (hwf : s.c.WF) (har : s.c.Arity1) :
     (groupWalk r (s.c.wire r).reverse { s with gates := [] }).c.WF ∧
     (groupWalk r (s.c.wire r).reverse { s with gates := [] }).c.Arity1 ∧
     (groupWalk r (s.c.wire r).reverse { s with gates := [] }).c.flat = s.c.flat := by
   by_cases hty : r.ty = .c
-  · rw [groupWalk_classical r hty _ { s with gates := [] } hwf har rfl (fun m hm => by simpa using hm) hb]
+  · rw [groupWalk_classical r hty _ { s with gates := [] } hwf har rfl (fun m hm => by simpa using hm)]
     exact ⟨hwf, har, rfl⟩
   · by_cases hv : s.c.validReg r = true
     · have hr : r ∈ s.c.qregs := (mem_qregs s.c r).mpr ⟨hv, hty⟩
       have h0 : GInv s.c r (s.c.wire r).reverse { s with gates := [] } :=
         ⟨hwf, har, rfl, rfl, rfl, ⟨[], by simp, by simp [pend_nil, F_nil]⟩, fun _ _ _ => rfl, fun h => absurd rfl h⟩
-      have hinv := groupWalk_inv s.c r hr _ _ h0 hb
+      have hinv := groupWalk_inv s.c r hr _ _ h0
       obtain ⟨hwf', har', hne, hnp, hnc, ⟨S, hwire, hF⟩, hothers, hpend⟩ := hinv
       refine ⟨hwf', har', flat_eq_of hne hnp hnc (fun r' hr' => ?_)⟩
       rw [flatWire_eq_F, flatWire_eq_F]
@@ -1519,38 +1462,22 @@ theorem groupWalk_reg (r : Reg) (s : GroupSt) (hwf : s.c.WF) (har : s.c.Arity1)
       rw [hw]
       exact ⟨hwf, har, rfl⟩
 
-theorem group_fold_bad (order : List Reg) (s : GroupSt)
-    (h : (order.foldl (fun s r => groupWalk r (s.c.wire r).reverse { s with gates := [] }) s).bad = false) : s.bad = false := by
-  induction order generalizing s with
-  | nil => exact h
-  | cons r order ih =>
-    simp only [List.foldl_cons] at h
-    exact groupWalk_bad r _ { s with gates := [] } (ih _ h)
-
-theorem group_fold (order : List Reg) (s : GroupSt) (hwf : s.c.WF) (har : s.c.Arity1)
-    (h : (order.foldl (fun s r => groupWalk r (s.c.wire r).reverse { s with gates := [] }) s).bad = false) :
+theorem group_fold (order : List Reg) (s : GroupSt) (hwf : s.c.WF) (har : s.c.Arity1) :
     (order.foldl (fun s r => groupWalk r (s.c.wire r).reverse { s with gates := [] }) s).c.WF ∧
     (order.foldl (fun s r => groupWalk r (s.c.wire r).reverse { s with gates := [] }) s).c.Arity1 ∧
     (order.foldl (fun s r => groupWalk r (s.c.wire r).reverse { s with gates := [] }) s).c.flat = s.c.flat := by
   induction order generalizing s with
   | nil => exact ⟨hwf, har, rfl⟩
   | cons r order ih =>
-    simp only [List.foldl_cons] at h ⊢
-    have hb := group_fold_bad order _ h
-    obtain ⟨h1, h2, h3⟩ := groupWalk_reg r s hwf har hb
-    obtain ⟨h4, h5, h6⟩ := ih _ h1 h2 h
+    simp only [List.foldl_cons]
+    obtain ⟨h1, h2, h3⟩ := groupWalk_reg r s hwf har
+    obtain ⟨h4, h5, h6⟩ := ih _ h1 h2
     exact ⟨h4, h5, by rw [h6, h3]⟩
 
-/-- `flat (group_one_qubit_gates c) = flat c` whenever the call does not raise, whatever the register order -/
-theorem flat_groupOneQubitGates (c : Circuit) (order : List Reg) (c' : Circuit) (hwf : c.WF) (har : c.Arity1)
-    (h : c.groupOneQubitGates order = Except.ok c') : c'.WF ∧ c'.Arity1 ∧ c'.flat = c.flat := by
-  unfold Circuit.groupOneQubitGates at h
-  simp only at h
-  split at h
-  · cases h
-  · rename_i hb
-    cases h
-    exact group_fold order ⟨c, [], false⟩ hwf har (by simpa using hb)
+/-- `flat (group_one_qubit_gates c) = flat c`, whatever the register order (a `MeasurementZ` is a boundary) -/
+theorem flat_groupOneQubitGates (c : Circuit) (order : List Reg) (hwf : c.WF) (har : c.Arity1) :
+    (c.groupOneQubitGates order).WF ∧ (c.groupOneQubitGates order).Arity1 ∧ (c.groupOneQubitGates order).flat = c.flat :=
+  group_fold order ⟨c, []⟩ hwf har
 
 /-! ## 7. the denotation of a circuit factors through `flat` -/
 
@@ -1884,9 +1811,7 @@ theorem NodesSat_unwrapNodes {Q : Op → Prop} (c : Circuit) (order : List Nat) 
 theorem NodesSat_gStep1 {Q : Op → Prop} (s : GroupSt) (n : Nat) (h : s.c.NodesSat Q) : (gStep1 s n).c.NodesSat Q := by
   unfold gStep1
   split
-  · split
-    · exact NodesSat_removeOp _ n h
-    · exact NodesSat_removeOp _ n h
+  · exact NodesSat_removeOp _ n h
   · exact h
 
 theorem NodesSat_gStep2 {Q : Op → Prop} (r : Reg) (rest : List Nat) (s : GroupSt) (h : s.c.NodesSat Q)
@@ -1915,15 +1840,9 @@ theorem NodesSat_groupFold {Q : Op → Prop} (order : List Reg) (s : GroupSt) (h
     simp only [List.foldl_cons]
     exact ih _ (NodesSat_groupWalk r _ { s with gates := [] } h (hw r))
 
-theorem NodesSat_group {Q : Op → Prop} (c : Circuit) (order : List Reg) (c' : Circuit) (h : c.NodesSat Q)
-    (hw : ∀ r gs, gs ≠ [] → Q ⟨.wrapper gs, [r], [], false⟩) (hg : c.groupOneQubitGates order = Except.ok c') :
-    c'.NodesSat Q := by
-  unfold Circuit.groupOneQubitGates at hg
-  simp only at hg
-  split at hg
-  · cases hg
-  · cases hg
-    exact NodesSat_groupFold order ⟨c, [], false⟩ h hw
+theorem NodesSat_group {Q : Op → Prop} (c : Circuit) (order : List Reg) (h : c.NodesSat Q)
+    (hw : ∀ r gs, gs ≠ [] → Q ⟨.wrapper gs, [r], [], false⟩) : (c.groupOneQubitGates order).NodesSat Q :=
+  NodesSat_groupFold order ⟨c, []⟩ h hw
 
 /-- what the semantic theorem needs of every operation: at least one quantum register, duplicate-free registers -/
 def OpOk (op : Op) : Prop := op.q ≠ [] ∧ op.addRegs.Nodup
@@ -1933,10 +1852,10 @@ theorem QNonempty_of_NodesSat (c : Circuit) (h : c.NodesSat OpOk) : c.QNonempty 
 /-! ## 9. the class of circuits the semantic theorem is about, and its preservation by the rewrites -/
 
 /-- per-operation sanity: at least one quantum register; registers duplicate-free; classical registers exist;
-    one-qubit-labelled operations act on one register and one-qubit gates have no classical register -/
+    one-qubit gates act on one register and have no classical register -/
 def OpGood (nc : Nat) (op : Op) : Prop :=
   op.q ≠ [] ∧ op.addRegs.Nodup ∧ (∀ i, i ∈ op.cr → i < nc) ∧
-  (op.kind.oneQubitLabel = true → (∃ r, op.q = [r]) ∧ (op.kind.isGate1 = true → op.cr = []))
+  (op.kind.isGate1 = true → (∃ r, op.q = [r]) ∧ op.cr = [])
 
 /-- well-formed circuits all of whose operations are sane -/
 def Circuit.Good (c : Circuit) : Prop := c.WF ∧ c.NodesSat (OpGood c.nc)
@@ -1947,10 +1866,10 @@ theorem good_qNonempty {c : Circuit} (h : c.Good) : c.QNonempty := fun n op hn =
 
 theorem OpGood_base1 (nc : Nat) (g : G1) (r : Reg) : OpGood nc (Op.base1 g r) :=
   ⟨by simp [Op.base1], by simp [Op.base1, Op.addRegs], fun i hi => by simp [Op.base1] at hi,
-   fun _ => ⟨⟨r, rfl⟩, fun _ => rfl⟩⟩
+   fun _ => ⟨⟨r, rfl⟩, rfl⟩⟩
 
 theorem OpGood_wrapper (nc : Nat) (gs : List G1) (r : Reg) : OpGood nc ⟨.wrapper gs, [r], [], false⟩ :=
-  ⟨by simp, by simp [Op.addRegs], fun i hi => by simp at hi, fun _ => ⟨⟨r, rfl⟩, fun _ => rfl⟩⟩
+  ⟨by simp, by simp [Op.addRegs], fun i hi => by simp at hi, fun _ => ⟨⟨r, rfl⟩, rfl⟩⟩
 
 theorem flat_nc {c c' : Circuit} (h : c'.flat = c.flat) : c'.nc = c.nc := by
   simp only [Circuit.flat, Prod.mk.injEq] at h
@@ -1978,12 +1897,11 @@ theorem Good_unwrapNodes (c : Circuit) (order : List Nat) (h : c.Good) : (c.unwr
   rw [flat_nc hflat]
   exact NodesSat_unwrapNodes c order h.2 (OpGood_base1 c.nc)
 
-theorem Good_group (c : Circuit) (order : List Reg) (c' : Circuit) (h : c.Good)
-    (hg : c.groupOneQubitGates order = Except.ok c') : c'.Good := by
-  obtain ⟨hwf', _, hflat⟩ := flat_groupOneQubitGates c order c' h.1 (good_arity1 h) hg
+theorem Good_group (c : Circuit) (order : List Reg) (h : c.Good) : (c.groupOneQubitGates order).Good := by
+  obtain ⟨hwf', _, hflat⟩ := flat_groupOneQubitGates c order h.1 (good_arity1 h)
   refine ⟨hwf', ?_⟩
   rw [flat_nc hflat]
-  exact NodesSat_group c order c' h.2 (fun r gs _ => OpGood_wrapper c.nc gs r) hg
+  exact NodesSat_group c order h.2 (fun r gs _ => OpGood_wrapper c.nc gs r)
 
 theorem Good_assignNoise (c : Circuit) (seq : List Nat) (c' : Circuit) (h : c.Good)
     (hg : c.assignNoise seq = Except.ok c') : c'.Good := by
@@ -1999,7 +1917,7 @@ inductive Rewrites (c : Circuit) : Circuit → Prop where
   | copy : Rewrites c c.copy
   | unwrap (order : List Nat) : Rewrites c (c.unwrapNodes order)
   | removeIdentity (order : List Nat) : Rewrites c (c.removeIdentity order)
-  | group (order : List Reg) (c' : Circuit) (h : c.groupOneQubitGates order = Except.ok c') : Rewrites c c'
+  | group (order : List Reg) : Rewrites c (c.groupOneQubitGates order)
   | assignNoise (seq : List Nat) (c' : Circuit) (h : c.assignNoise seq = Except.ok c') : Rewrites c c'
 
 theorem Rewrites.flat_eq {c c' : Circuit} (hgood : c.Good) (h : Rewrites c c') : c'.flat = c.flat := by
@@ -2007,7 +1925,7 @@ theorem Rewrites.flat_eq {c c' : Circuit} (hgood : c.Good) (h : Rewrites c c') :
   | copy => rfl
   | unwrap order => exact (flat_unwrapNodes c order hgood.1).2
   | removeIdentity order => exact flat_removeIdentity c order
-  | group order c' h => exact (flat_groupOneQubitGates c order c' hgood.1 (good_arity1 hgood) h).2.2
+  | group order => exact (flat_groupOneQubitGates c order hgood.1 (good_arity1 hgood)).2.2
   | assignNoise seq c' h => exact (flat_assignNoise c seq c' hgood.1 (good_opsOk hgood) h).1
 
 theorem Rewrites.good {c c' : Circuit} (hgood : c.Good) (h : Rewrites c c') : c'.Good := by
@@ -2015,7 +1933,7 @@ theorem Rewrites.good {c c' : Circuit} (hgood : c.Good) (h : Rewrites c c') : c'
   | copy => exact hgood
   | unwrap order => exact Good_unwrapNodes c order hgood
   | removeIdentity order => exact Good_removeIdentity c order hgood
-  | group order c' h => exact Good_group c order c' hgood h
+  | group order => exact Good_group c order hgood
   | assignNoise seq c' h => exact Good_assignNoise c seq c' hgood h
 
 theorem Good_empty (ne np nc : Nat) : (Circuit.empty ne np nc).Good :=
